@@ -176,11 +176,17 @@ fn expr_p1<'t>(
     fn expr_p1_call<'t>(
         input: &'t [LexToken],
         st: &mut SymbolTable,
+        allow_template_args: bool,
     ) -> ParseResult<'t, Located<Precedence1Postfix>> {
         // If we fail before reaching the call parenthesis then other parse trees may be better fits
         let start_input = input;
 
-        let (input, template_args) = parse_template_args(input).rebase_fail_point(start_input)?;
+        // Only a name can be given template arguments - after anything else a < is the comparison operator
+        let (input, template_args) = if allow_template_args {
+            parse_template_args(input).rebase_fail_point(start_input)?
+        } else {
+            (input, Vec::new())
+        };
 
         let (input, start) = parse_token(Token::LeftParen)(input).rebase_fail_point(start_input)?;
 
@@ -227,10 +233,11 @@ fn expr_p1<'t>(
     fn expr_p1_right<'t>(
         input: &'t [LexToken],
         st: &mut SymbolTable,
+        allow_template_args: bool,
     ) -> ParseResult<'t, Located<Precedence1Postfix>> {
         expr_p1_increment(input)
             .select(expr_p1_decrement(input))
-            .select(expr_p1_call(input, st))
+            .select(expr_p1_call(input, st, allow_template_args))
             .select(expr_p1_member(input))
             .select(expr_p1_subscript(input, st))
     }
@@ -244,9 +251,14 @@ fn expr_p1<'t>(
         // Parse as many operations as we can
         // If we partially parsed something then fail
         let mut input = input;
-        let mut rights = Vec::new();
+        let mut rights: Vec<Located<Precedence1Postfix>> = Vec::new();
         loop {
-            match expr_p1_right(input, st) {
+            // Template arguments can follow a plain name or a member name
+            let allow_template_args = match rights.last() {
+                None => matches!(left.node, Expression::Identifier(_)),
+                Some(last) => matches!(last.node, Precedence1Postfix::Member(_)),
+            };
+            match expr_p1_right(input, st, allow_template_args) {
                 Ok((rest, right)) => {
                     input = rest;
                     rights.push(right);
